@@ -6,6 +6,7 @@ package world
 
 import (
 	"bytes"
+	"context"
 	"errors"
 	"fmt"
 	"runtime"
@@ -58,6 +59,7 @@ type Interceptor struct {
 
 	gate *Gate
 
+	ctxs     map[string]context.Context // last context seen by selected calls (C19)
 	inflight atomic.Int64
 	disabled atomic.Bool // pass-through (setup / oracle phases)
 }
@@ -119,6 +121,23 @@ func (ic *Interceptor) SetGate(g *Gate) { ic.mu.Lock(); ic.gate = g; ic.mu.Unloc
 
 // Disable makes the interceptor a pass-through (still counts in-flight calls).
 func (ic *Interceptor) Disable(v bool) { ic.disabled.Store(v) }
+
+// NoteCtx remembers the context a call was made with.
+func (ic *Interceptor) NoteCtx(name string, ctx context.Context) {
+	ic.mu.Lock()
+	if ic.ctxs == nil {
+		ic.ctxs = map[string]context.Context{}
+	}
+	ic.ctxs[name] = ctx
+	ic.mu.Unlock()
+}
+
+// CtxOf returns the context last noted for a call name.
+func (ic *Interceptor) CtxOf(name string) context.Context {
+	ic.mu.Lock()
+	defer ic.mu.Unlock()
+	return ic.ctxs[name]
+}
 
 // History returns a copy of the steps since Begin.
 func (ic *Interceptor) History() []Step {
